@@ -255,6 +255,26 @@ def check(rep: Report, ctx: Ctx) -> None:
            detail="threshold flush calls commit_batched_unique_data_..."
                   if not raw_in_save else "threshold flush calls the raw "
                   "commit: one duplicate id loses the whole batch")
+    # node and link of one span are queued together: no flush in between (the
+    # recovery path assumes the pending links are exactly the links of the
+    # pending nodes and rebuilds them from the surviving nodes)
+    scfg = ctx.cfg(save)
+    n_app = scfg.container(apps[0]) if apps else None
+    n_rel = scfg.container(rel[0]) if rel else None
+    bad_flush = [c for c in flush
+                 if n_app is None or n_rel is None or not (
+                     scfg.dominates(n_app, scfg.container(c))
+                     and scfg.dominates(n_rel, scfg.container(c)))]
+    rep.ob("R10.5", "no flush between queueing a span and queueing its link",
+           bool(flush) and not bad_flush, fi=save,
+           node=bad_flush[0] if bad_flush else (flush[0] if flush
+                                                else save.node),
+           detail=("the batch is flushed after the node was appended but "
+                   "before its parent link is queued: the link travels with "
+                   "the next batch and is discarded when that batch goes "
+                   "through the duplicate filter" if bad_flush else
+                   "append(node) and add_node_relations(span) both dominate "
+                   "the threshold flush"))
     # resets only after both inserts
     rcfg = ctx.cfg(raw)
     resets = [n for n in ast.walk(raw.node) if isinstance(n, ast.Assign)
